@@ -88,16 +88,20 @@ def gen_cases(tier, seed):
                     cases.append({"kind": "sharded", "strategy": strategy, "shard_enc": senc,
                                   "op": op, "encoding": enc})
     rnd = random.Random(f"C18:{seed}")
-    for k in range(4 if tier == "quick" else 40):
-        cases.append({"kind": "http", "dseed": rnd.randrange(2 ** 32),
-                      "sharded": k % 2 == 1})
-    cases.append({"kind": "strace"})
     if tier == "thorough":
         # the same enumeration on other dataset geometries / payloads
         for k in range(30):
             base = dict(rnd.choice(cases[:60]))
             base["variant"] = rnd.randrange(1, 2 ** 16)
             cases.append(base)
+    # cases that start threads / child processes come last (the storage cases fork)
+    tail = [{"kind": "strace"}]
+    for k in range(4 if tier == "quick" else 40):
+        tail.append({"kind": "http", "dseed": rnd.randrange(2 ** 32), "sharded": k % 2 == 1})
+    for k in range(2 if tier == "quick" else 8):
+        tail.append({"kind": "strace_cli", "seed": rnd.randrange(2 ** 32),
+                     "gzip": k % 2 == 0, "max_points": 10 if tier == "quick" else 60})
+    return cases + tail
     return cases
 
 
@@ -672,9 +676,126 @@ def run_strace(case):
             "sample": {"case": case, "syscalls": obs["strace_syscalls_on_dataset_paths"]}}
 
 
+def run_strace_cli(case):
+    """Fault injection at SYSTEM-CALL level (strace -e inject=...) around the real
+    volume-to-precomputed process: the n-th write / openat / mkdir that targets the dataset
+    directory fails with ENOSPC / EACCES.  Oracle: the command exits non-zero, or - if it
+    exits 0 - every chunk is present and correct; in both cases a fresh reader never
+    decodes wrong voxels."""
+    import itertools
+    import re
+    import subprocess
+    import sys
+
+    import nibabel
+    import numpy as np
+    from neuroglancer_scripts import accessor as accessor_mod
+    from neuroglancer_scripts import precomputed_io
+    top = tempfile.mkdtemp(prefix="c18i-")
+    obs = {"cases": 1, "kinds": {"strace_cli": 1}, "syscall_fault_runs": 0,
+           "syscall_faults_leading_to_failure_status": 0, "syscall_faults_absorbed": 0,
+           "syscall_injection_points": 0}
+    v = []
+    try:
+        rnd = random.Random(case["seed"])
+        shape = (rnd.randint(9, 20), rnd.randint(5, 12), rnd.randint(3, 9))
+        vol = np.random.default_rng(case["seed"]).integers(0, 255, size=shape, dtype=np.uint8)
+        fn = os.path.join(top, "v.nii")
+        nibabel.save(nibabel.Nifti1Image(vol, np.eye(4)), fn)
+        info = {"type": "image", "data_type": "uint8", "num_channels": 1, "scales": [
+            {"key": "k", "size": list(shape), "chunk_sizes": [[8, 8, 8]], "encoding": "raw",
+             "resolution": [1e6, 1e6, 1e6], "voxel_offset": [0, 0, 0]}]}
+        base = [sys.executable, "-W", "ignore", "-m",
+                "neuroglancer_scripts.scripts.volume_to_precomputed", fn]
+        opts = ["--flat"] + ([] if case["gzip"] else ["--no-gzip"])
+        env = dict(os.environ, TQDM_DISABLE="1")
+
+        def fresh(name):
+            d = os.path.join(top, name)
+            os.makedirs(d)
+            with open(os.path.join(d, "info"), "w") as f:
+                json.dump(info, f)
+            return d
+        d0 = fresh("dry")
+        log = os.path.join(top, "dry.log")
+        try:
+            p = subprocess.run(["strace", "-f", "-qq", "-y", "-e", "trace=write,openat,mkdir",
+                                "-o", log, *base, d0, *opts], capture_output=True, text=True,
+                               timeout=300, env=env)
+        except (OSError, subprocess.TimeoutExpired) as exc:
+            obs["strace_error"] = [f"{type(exc).__name__}: {exc}"]
+            return {"violations": [], "obs": obs}
+        if p.returncode != 0:
+            obs["strace_error"] = [p.stderr[-300:]]
+            return {"violations": [], "obs": obs}
+        counters = {"write": 0, "openat": 0, "mkdir": 0}
+        points = []
+        pat = re.compile(r"^\d+\s+(write|openat|mkdir)\((.*)$")
+        with open(log) as f:
+            for line in f:
+                m = pat.match(line)
+                if not m:
+                    continue
+                name = m.group(1)
+                counters[name] += 1
+                if d0 in m.group(2).split(", ", 2)[0] + m.group(2)[:400] and (
+                        name != "openat" or "O_WRONLY" in line or "O_RDWR" in line):
+                    points.append((name, counters[name]))
+        obs["syscall_injection_points"] = len(points)
+        rnd.shuffle(points)
+        grid = [(x, min(x + 8, shape[0]), y, min(y + 8, shape[1]), z, min(z + 8, shape[2]))
+                for x, y, z in itertools.product(range(0, shape[0], 8), range(0, shape[1], 8),
+                                                 range(0, shape[2], 8))]
+        want = np.moveaxis(vol, (0, 1, 2), (2, 1, 0))[np.newaxis]
+        for n, (name, k) in enumerate(points[:case["max_points"]]):
+            d = fresh(f"run{n}")
+            err = {"write": "ENOSPC", "openat": "EACCES", "mkdir": "EACCES"}[name]
+            p = subprocess.run(["strace", "-f", "-qq", "-o", "/dev/null", "-e",
+                                f"trace={name}", "-e", f"inject={name}:error={err}:when={k}",
+                                *base, d, *opts], capture_output=True, text=True, timeout=300,
+                               env=env)
+            obs["syscall_fault_runs"] += 1
+            label = f"{err} at {name} #{k} ({'gzip' if case['gzip'] else 'plain'} flat files)"
+            pio = precomputed_io.get_IO_for_existing_dataset(
+                accessor_mod.get_accessor_for_url(d))
+            wrong, missing = [], []
+            for c in grid:
+                try:
+                    got = pio.read_chunk("k", c)
+                    if not np.array_equal(got, want[:, c[4]:c[5], c[2]:c[3], c[0]:c[1]]):
+                        wrong.append(c)
+                except Exception:  # noqa: BLE001
+                    missing.append(c)
+            if wrong:
+                v.append({"kind": "wrong-voxels-after-system-call-fault",
+                          "detail": f"{label}: chunk {wrong[0]} decodes to wrong values "
+                          f"(exit status {p.returncode})"})
+            if p.returncode == 0:
+                obs["syscall_faults_absorbed"] += 1
+                if missing:
+                    v.append({"kind": "command-succeeded-although-a-write-failed",
+                              "detail": f"{label}: exit status 0 but {len(missing)} of "
+                              f"{len(grid)} chunks cannot be read, e.g. {missing[0]}"})
+            else:
+                obs["syscall_faults_leading_to_failure_status"] += 1
+                tail = p.stderr.strip().splitlines()[-1:] or [""]
+                if not any(w in tail[0] for w in ("Error", "error", "Errno")):
+                    obs.setdefault("unusual_failure_messages", []).append(tail[0][:80])
+            shutil.rmtree(d, ignore_errors=True)
+            if len(v) > 3:
+                break
+    finally:
+        shutil.rmtree(top, ignore_errors=True)
+    return {"violations": v[:4], "obs": obs, "evals": max(1, obs["syscall_fault_runs"]),
+            "distinct_disjoint": obs["syscall_fault_runs"],
+            "sample": {"case": case, "points": obs["syscall_injection_points"]}}
+
+
 def run_case(case):
     if case["kind"] == "strace":
         return run_strace(case)
+    if case["kind"] == "strace_cli":
+        return run_strace_cli(case)
     return run_http(case) if case["kind"] == "http" else run_storage(case)
 
 
@@ -682,7 +803,9 @@ def gates(obs, tier):
     calls = obs.get("calls", {})
     ck = obs.get("call_kinds", {})
     return {
-        "file_and_sharded_and_http": len(obs.get("kinds", {})) == 4,
+        "file_and_sharded_and_http": len(obs.get("kinds", {})) == 5,
+        "system_call_faults_on_the_real_command": obs.get("syscall_fault_runs", 0) >= 10
+        and obs.get("syscall_faults_leading_to_failure_status", 0) > 0,
         "interposition_complete_at_system_call_level": obs.get("strace_available", 0) > 0
         and obs.get("strace_syscalls_on_dataset_paths", 0) > 50
         and not obs.get("interposition_gaps"),
